@@ -207,6 +207,10 @@ func (s *Solver) Script(ob *Obligation) string {
 					s.used = map[string]bool{}
 				}
 				s.used[ax.decl.Name] = true
+				if ob.Axioms == nil {
+					ob.Axioms = map[string]bool{}
+				}
+				ob.Axioms[ax.decl.Name] = true
 				s.usedMu.Unlock()
 				for sy := range ax.symbols {
 					if !syms[sy] {
@@ -344,9 +348,19 @@ func (s *Solver) Solve(obs []*Obligation, thorough bool, timeout int, jobs int) 
 			if thorough {
 				results := map[string]string{}
 				var total int64
+				decided := false
 				for _, sp := range solvers {
-					r, raw, ms := runSolver(sp, s.tmpdir, base, script, timeout)
+					to := timeout
+					if decided && to > 6 {
+						// one solver has discharged the obligation: the others are asked for a second opinion (a `sat` from any of
+						// them is a disagreement), with a shorter budget
+						to = 6
+					}
+					r, raw, ms := runSolver(sp, s.tmpdir, base, script, to)
 					results[sp.name] = r
+					if r == "unsat" {
+						decided = true
+					}
 					total += ms
 					if r == "sat" || r == "unknown" {
 						if ob.Raw == "" {
